@@ -66,7 +66,8 @@ def plausible(name, p, default, r):
   if isinstance(default, bool):
     return not default
   if isinstance(default, int):
-    return default + r.randint(1, 5)
+    v = default + r.randint(1, 5)
+    return r.choice([v, v, np.int64(v), np.int32(v)])     # e.g. taken from np.arange in a grid search
   if isinstance(default, float):
     return default * 1.5 + 0.125
   if p in ("init", "prior"):
@@ -76,7 +77,7 @@ def plausible(name, p, default, r):
   if p == "weights":
     return np.array([1.0, 2.0])
   if default is None:
-    return r.choice([3, 0.25])
+    return r.choice([3, 0.25, np.int64(3)])
   return "other-" + str(default)
 
 
@@ -170,7 +171,12 @@ def sweep(cov):
         pairs += 1
         with warnings.catch_warnings():
           warnings.simplefilter("ignore")
-          est = cls(**{p: v})
+          try:
+            est = cls(**{p: v})
+          except Exception as e:
+            # constructors store their arguments untouched; they do not inspect them
+            raise Violation("param_identity", "cls=%s,param=%s,constructor_raises" % (name, p),
+                            "%s(%s=%r) raised %s: %s" % (name, p, v, type(e).__name__, str(e)[:160]))
           got = est.get_params(deep=False)[p]
           if got is not v:
             raise Violation("param_identity", "cls=%s,param=%s" % (name, p),
@@ -221,6 +227,21 @@ class Oracle(object):
 
   def after(self, m, op, ev, live):
     kind = op["op"]
+    if kind == "alias_new":
+      cl, al, rp, val = live["alias"]
+      if ev.get("outcome") != "ok":
+        raise Violation("deprecated_alias", "cls=%s,param=%s,raises,in_history" % (cl, al),
+                        "%s(%s=%r) raised %s" % (cl, al, val, ev.get("outcome")))
+      if not any(issubclass(w.category, FutureWarning) for w in live["warnings"]):
+        raise Violation("deprecated_alias", "cls=%s,param=%s,no_warning,in_history" % (cl, al),
+                        "%s(%s=%r) did not emit FutureWarning (constructed after %d earlier operations "
+                        "of this process)" % (cl, al, val, m.op_index))
+      if live["alias_est"].get_params(deep=False).get(rp) != val:
+        raise Violation("deprecated_alias", "cls=%s,param=%s,not_mapped,in_history" % (cl, al),
+                        "%s(%s=%r): %s is %r" % (cl, al, val, rp, live["alias_est"].get_params(deep=False).get(rp)))
+      m.cov["alias_checks_in_history"] += 1
+      self.checked += 1
+      return
     h = live.get("handle")
     if h is None or h.est is None:
       return
@@ -336,7 +357,7 @@ def gen_plan(seed, tier):
       seed, tier, n_ops=(5, 14), dmax=5, pre_p=0.35, fresh_p=0.01 if tier == "thorough" else 0.006,
       weights=dict(query=22, refit=10, threshold=4, calibrate=2, handout=0, mutate=0,
                    restart=16, clone=14, ambient=3, eigsh=2, set_nondata=8, failfit=2,
-                   fault=0, new=14, swap_pre=6, interrupt=3), failfirst_p=0.25, view_p=0.3, wide_p=0.03)
+                   fault=0, new=14, swap_pre=6, interrupt=3, alias=5), failfirst_p=0.25, view_p=0.3, wide_p=0.03)
 
 
 SWEEP_SEED = [None]
